@@ -882,25 +882,28 @@ Fixpoint c19_mask (f : participant -> bool) (l : list participant) (bit : N) : N
   end.
 
 (* the harness script (same numbering): [1] register, [2,i] wait, [3] submit, [4,i] finish, [5] complete, [6] observe *)
-Fixpoint c19_ops (s : sstate) (ops : list (list N)) : list (list N) :=
+(* real sessions register by themselves and wind down by themselves when they observe a submission *)
+Fixpoint c19_ops (s : sstate) (sess : list nat) (ops : list (list N)) : list (list N) :=
   match ops with
   | [] => []
   | op :: rest =>
     match op with
     | [1] => let s' := sstep s Register in
-             [1; lenN (parts s); if completing s then 0 else 1] :: c19_ops s' rest
-    | [2; i] => [2] :: c19_ops (sstep s (Wait (N.to_nat i))) rest
-    | [3] => [3] :: c19_ops (sstep s Submit) rest
-    | [4; i] => [4] :: c19_ops (sstep s (Finish (N.to_nat i))) rest
-    | [5] => [5] :: c19_ops (sstep s Complete) rest
-    | [6] => [6; c19_mask p_observed (parts s) 1; 0; if completion_done s then 1 else 0] :: c19_ops s rest
-    | _ => [997] :: c19_ops s rest
+             [1; lenN (parts s); if completing s then 0 else 1] :: c19_ops s' sess rest
+    | [2; i] => [2] :: c19_ops (sstep s (Wait (N.to_nat i))) sess rest
+    | [3] => [3] :: c19_ops (fold_left (fun st k => sstep st (Finish k)) sess (sstep s Submit)) [] rest
+    | [4; i] => [4] :: c19_ops (sstep s (Finish (N.to_nat i))) sess rest
+    | [5] => [5] :: c19_ops (sstep s Complete) sess rest
+    | [6] => [6; c19_mask p_observed (parts s) 1; 0; if completion_done s then 1 else 0] :: c19_ops s sess rest
+    | [7; _] => [7; lenN (parts s)] :: c19_ops (sstep s Register) (length (parts s) :: sess) rest
+    | [8; i] => [8] :: c19_ops (sstep s (Finish (N.to_nat i))) (filter (fun k => negb (Nat.eqb k (N.to_nat i))) sess) rest
+    | _ => [997] :: c19_ops s sess rest
     end
   end.
 
 Definition c19_run (toks : list (list N)) : list (list N) :=
   match toks with
-  | _ :: ops => c19_ops s0 ops
+  | _ :: ops => c19_ops s0 [] ops
   | _ => REJECT_TOK
   end.
 
